@@ -1,17 +1,24 @@
 (* drv_c01.ml — C01: runs the POSIX specification (Model/Posix.v, extracted) next to the Go-level
    model of MemMapFs on an operation sequence.
 
-   "pcase <id> mem" ... item lines as in a "case" block (". <slot|-> <op ...>"; snap/index items are
-   skipped) ... "end".  For step i prints
-     W  <id>#<i> wf=<bool> sim=<bool>    the C01 preconditions wf_op / wf_op_sim in the state reached
-     MP <id>#<i> <outcome>               the model's result projected to the outcome language (mproj)
-     S  <id>#<i> <outcome>               the specification's outcome
-   C01_simulation says MP = S for every step as long as all "sim" flags so far are true.
+   "pcase <id> mem [wf|any]" ... item lines as in a "case" block (". <slot|-> <op ...>"; snap/index
+   items are skipped) ... "end".  The harness writes such a block after every "case" block (id "p" ^
+   id of the case, op items only) together with the implementation's results projected to the
+   outcome language of the specification (c01.go projPosix).  For step i prints
+     W <id>#<i> wf=<bool> sim=<bool>    the C01 preconditions wf_op / wf_op_sim in the state reached
+     M <id>#<i> <outcome>               the model's result projected to the outcome language (mproj)
+     S <id>#<i> <outcome>               the specification's outcome — as long as every call so far
+                                        satisfied wf_op_sim: that prefix is inside the hypothesis of
+                                        C01_simulation, which says M = S there; ./check compares both
+                                        with the implementation (M: correspondence, S: property oracle)
+   and, when the header says "wf" (the generator claims that the whole case is a portable program),
+     M <id>#class wf | outside@<i>      whether wf_seq_sim holds for the whole case (i = first call outside)
+   so that a generator whose well-formed stream leaves the proved class is reported.
    H-ops name SLOT numbers; a slot is bound to the handle returned by the op that carried it. *)
 open Model
 open Driver_common
 
-let cls = function CNotExist -> "NotExist" | CExist -> "Exist" | CClosed -> "Closed" | COther -> "Other"
+let cls = function CNotExist -> "NotExist" | CExist -> "Exist" | CClosed -> "Closed" | CNotDir -> "NotDir" | COther -> "Other"
 
 let canon_pout (p : pout) : string =
   match p with
@@ -23,12 +30,15 @@ let canon_pout (p : pout) : string =
                        (match sz with None -> "-" | Some n -> string_of_int (int_of_nat n))
   | PData (b, eof) -> Printf.sprintf "bytes:%s:%s" (hex_of_bytes b) (if eof then "eof" else "-")
   | PNum n -> "num:" ^ string_of_int (int_of_nat n)
-  | PNames (l, eof) -> Printf.sprintf "names:%s:%s" (String.concat "," (List.map hex_of_bytes l)) (if eof then "eof" else "-")
+  (* a page of names as a sorted list, as the harness canonicalises every listing (canon.go namesS / fisS;
+     that a page is ascending is C01_listing_is_children's subject) *)
+  | PNames (l, eof) -> Printf.sprintf "names:%s:%s" (String.concat "," (List.sort compare (List.map hex_of_bytes l))) (if eof then "eof" else "-")
 
-let run_pcase id (lines : string list) =
+let run_pcase id claim (lines : string list) =
   let items = List.map (fun l -> Fsdriver.parse_item (tokens l)) lines in
   let slots : (int, nat) Hashtbl.t = Hashtbl.create 8 in
   let s = ref m_init and t = ref p_init in
+  let inside = ref true and first_out = ref (-1) in
   List.iteri (fun i it ->
       match it with
       | IOp (_, slot, o) ->
@@ -38,20 +48,27 @@ let run_pcase id (lines : string list) =
               | None -> None)
           | None -> Some o in
         (match o' with
-         | None -> Printf.printf "MP %s#%d noslot\nS %s#%d noslot\n" id i id i
+         | None ->
+           Printf.printf "M %s#%d noslot\n" id i;
+           if !inside then Printf.printf "S %s#%d noslot\n" id i
          | Some o ->
-           Printf.printf "W %s#%d wf=%s sim=%s\n" id i (bool_s (wf_op !s o)) (bool_s (wf_op_sim !s o));
+           let sim = wf_op_sim !s o in
+           Printf.printf "W %s#%d wf=%s sim=%s\n" id i (bool_s (wf_op !s o)) (bool_s sim);
+           if not sim && !inside then (inside := false; first_out := i);
            let (s1, r) = m_step !s o in
            let (t1, p) = p_step !t o in
-           Printf.printf "MP %s#%d %s\n" id i (canon_pout (mproj o r));
-           Printf.printf "S %s#%d %s\n" id i (canon_pout p);
+           Printf.printf "M %s#%d %s\n" id i (canon_pout (mproj o r));
+           if !inside then Printf.printf "S %s#%d %s\n" id i (canon_pout p);
            (match r, slot with
             | RHandle h, Some sn -> Hashtbl.replace slots (int_of_nat sn) h
             | _, _ -> ());
            s := s1; t := t1)
-      | _ -> ()) items
+      | _ -> ()) items;
+  if claim then
+    Printf.printf "M %s#class %s\n" id (if !inside then "wf" else Printf.sprintf "outside@%d" !first_out)
 
 let () =
   Registry.register_block "pcase" (fun hd body -> match hd with
-      | [id; "mem"] -> run_pcase id body
+      | [id; "mem"] | [id; "mem"; "any"] -> run_pcase id false body
+      | [id; "mem"; "wf"] -> run_pcase id true body
       | _ -> failwith "bad pcase header (only the plain mem stack has a POSIX specification)")
